@@ -48,6 +48,16 @@ def getPragma (o : Opts) (st : St) : Node × St :=
     | some p => (nQuoteIdent p, st)
     | none => st.importFromVue "createVNode"
 
+/-- `jsx_member_to_expr`: `<a.b.C>` denotes the member expression `a.b.C`, `<this.C>` denotes `this.C` -/
+def jsxMemberToExpr : Node → Node
+  | .mk .jsxMember _ [obj, prop] =>
+    let o := match obj with
+      | .mk .ident ("this" :: _) _ => .mk (.other "ThisExpression") [] []
+      | .mk .ident as _ => .mk .ident as []
+      | m => jsxMemberToExpr m
+    .mk .member [] [o, prop]
+  | n => n
+
 /-- `transform_tag(jsx_element_name)` -/
 def transformTag (env : Env) (nameN : Node) (st : St) : Node × St :=
   match nameN with
@@ -59,7 +69,9 @@ def transformTag (env : Env) (nameN : Node) (st : St) : Node × St :=
       let (rc, st) := st.importFromVue "resolveComponent"
       (nCall rc [nArg (nStr name)], st)
     else (nIdent name bind, st)
-  | n => (n, st)      -- JSXMemberExpr / JSXNamespacedName are passed through as expressions
+  | .mk .jsxMember as ks => (jsxMemberToExpr (.mk .jsxMember as ks), st)
+  | .mk .jsxNsName _ [nsN, nmN] => (nStr (identName nsN ++ ":" ++ identName nmN), st)     -- `<svg:rect>`: the qualified name
+  | n => (n, st)
 
 /-- `generate_unique_slot_ident()` -/
 def genSlotIdent (st : St) : Node × St :=
@@ -185,7 +197,7 @@ def trElement (o : Opts) (env : Env) : Node → St → Node × St
   | .mk .jsxElement _ [.mk .jsxOpening _ [nameN, .mk .list _ attrs, _], .mk .list _ children, _], st =>
     let st := pushFlag o st
     let isComp := isComponent env nameN
-    let (ar, st) := transformAttrs o attrs isComp st
+    let (ar, st) := transformAttrs o env attrs isComp st
     let (tag, st) := transformTag env nameN st
     let (elems, st) := trChildList o env children st
     let (slotFlag, st) := popFlag o st
@@ -218,6 +230,41 @@ def trFragment (o : Opts) (env : Env) : Node → St → Node × St
     let (kids, st) := finishChildren o elems false none slotFlag st
     (nCall pragma [nArg frag, nArg nNull, nArg kids], st)
   | n, st => (.mk .ill [] [n], st.panic "ill-formed JSX fragment")
+
+/-- the fold of `transform_attrs`; an element / fragment used directly as a plain attribute's value is lowered here -/
+def trAttrs (o : Opts) (env : Env) (isComp : Bool) : List Node → AttrAcc → St → AttrAcc × St
+  | [], acc, st => (acc, st)
+  | a :: rest, acc, st =>
+    match a with
+    | .mk .jsxAttr aas [nameN, .mk .jsxElement eas eks] =>
+      if isDirectiveAttrName (attrNameOf nameN) then
+        let (acc, st) := attrStep o isComp (.mk .jsxAttr aas [nameN, .mk .jsxElement eas eks]) none acc st
+        trAttrs o env isComp rest acc st
+      else
+        let (e, st) := trElement o env (.mk .jsxElement eas eks) st
+        let (acc, st) := attrStep o isComp (.mk .jsxAttr aas [nameN, .mk .jsxElement eas eks]) (some e) acc st
+        trAttrs o env isComp rest acc st
+    | .mk .jsxAttr aas [nameN, .mk .jsxFragment eas eks] =>
+      if isDirectiveAttrName (attrNameOf nameN) then
+        let (acc, st) := attrStep o isComp (.mk .jsxAttr aas [nameN, .mk .jsxFragment eas eks]) none acc st
+        trAttrs o env isComp rest acc st
+      else
+        let (e, st) := trFragment o env (.mk .jsxFragment eas eks) st
+        let (acc, st) := attrStep o isComp (.mk .jsxAttr aas [nameN, .mk .jsxFragment eas eks]) (some e) acc st
+        trAttrs o env isComp rest acc st
+    | a =>
+      let (acc, st) := attrStep o isComp a none acc st
+      trAttrs o env isComp rest acc st
+
+/-- `transform_attrs(attrs, is_component, directives)` -/
+def transformAttrs (o : Opts) (env : Env) (attrs : List Node) (isComp : Bool) (st : St) : AttrsResult × St :=
+  match attrs with
+  | [] => ({ attrs := nNull, patchFlags := 0, dynamicProps := none, slots := none, directives := [] }, st)
+  | attrs =>
+    let (acc, st) := trAttrs o env isComp attrs {} st
+    let (expr, st) := assembleProps o acc.props acc.mergeArgs st
+    ({ attrs := expr, patchFlags := patchFlagsOf acc, dynamicProps := some acc.dynamicProps,
+       slots := acc.slots, directives := acc.directives }, st)
 
 /-- the `filter_map` over the children in `transform_children` -/
 def trChildList (o : Opts) (env : Env) : List Node → St → List Node × St
